@@ -13,12 +13,13 @@ import (
 // history (fill in one order, drain in another, refill) and a menu of
 // single-step deviations.
 type LongCfg struct {
-	Beta  int    `json:"beta"`
-	N     int    `json:"n"`
-	Fill  string `json:"fill"`  // asc desc zigzag inside
-	Drain string `json:"drain"` // asc desc zigzag inside
-	Depth bool   `json:"depth_oracle"`
-	Set   bool   `json:"set_oracle"`
+	Beta   int    `json:"beta"`
+	N      int    `json:"n"`
+	Fill   string `json:"fill"`  // asc desc zigzag inside
+	Drain  string `json:"drain"` // asc desc zigzag inside
+	Depth  bool   `json:"depth_oracle"`
+	Set    bool   `json:"set_oracle"`
+	Cursor bool   `json:"cursor_oracle"`
 }
 
 // order lists 0..n-1 in the named order.
@@ -195,6 +196,55 @@ func LongBody(cfg LongCfg, st *LongStats) func(c *mc.Chooser) *mc.Failure {
 				if len(ref) > 0 {
 					if t.Min().K != ref[0] || t.Max().K != ref[len(ref)-1] {
 						return mc.Failf(si, "after %v: Min/Max=%v/%v want %d/%d", o, t.Min(), t.Max(), ref[0], ref[len(ref)-1])
+					}
+				}
+			}
+			if cfg.Cursor {
+				// Tree.Cursor on a tree shaped by this history: every present key
+				// has a valid cursor on it whose Next/Prev walks reach exactly the
+				// rest of the set; absent keys have none.
+				for _, k := range []int{-3, o.A, o.A + 2} {
+					if _, present := has(k); !present {
+						if c := t.Cursor(Elem{K: k}); c.Valid() {
+							return mc.Failf(si, "after %v: Cursor(absent %d) is valid at %v", o, k, c.Key())
+						}
+					}
+				}
+				for i, k := range ref {
+					c := t.Cursor(Elem{K: k, T: -4})
+					if !c.Valid() || c.Key().K != k {
+						return mc.Failf(si, "after %v: Cursor(%d) valid=%v key=%v although the key is present (Len=%d)", o, k, c.Valid(), c.Key(), len(ref))
+					}
+					if c.HasNext() != (i+1 < len(ref)) || c.HasPrev() != (i > 0) {
+						return mc.Failf(si, "after %v: cursor at %d: HasNext=%v HasPrev=%v at index %d of %d", o, k, c.HasNext(), c.HasPrev(), i, len(ref))
+					}
+					if i == 0 || i == len(ref)-1 || i == len(ref)/2 {
+						// full walks from the ends and the middle
+						fw := c.Clone()
+						for j := i; j < len(ref); j++ {
+							if !fw.Valid() || fw.Key().K != ref[j] {
+								return mc.Failf(si, "after %v: Next walk from %d is at %v (valid=%v), want %d", o, k, fw.Key(), fw.Valid(), ref[j])
+							}
+							fw.Next()
+						}
+						if fw.Valid() {
+							return mc.Failf(si, "after %v: Next walk from %d does not end", o, k)
+						}
+						bw := c.Clone()
+						for j := i; j >= 0; j-- {
+							if !bw.Valid() || bw.Key().K != ref[j] {
+								return mc.Failf(si, "after %v: Prev walk from %d is at %v (valid=%v), want %d", o, k, bw.Key(), bw.Valid(), ref[j])
+							}
+							bw.Prev()
+						}
+						if bw.Valid() {
+							return mc.Failf(si, "after %v: Prev walk from %d does not end", o, k)
+						}
+					} else {
+						nx := c.Clone().Next()
+						if !nx.Valid() || nx.Key().K != ref[i+1] {
+							return mc.Failf(si, "after %v: Next from %d reaches %v, want %d", o, k, nx.Key(), ref[i+1])
+						}
 					}
 				}
 			}
